@@ -49,7 +49,8 @@ def check(ctx: Ctx) -> None:
         for leaf, toks, free in hits:
             if toks and toks[0][0] in ("RAISE",):
                 continue
-            body = toks[1:] if toks and toks[0] == ("INDENT", 0) else toks
+            # the leading indentation belongs to the caller's line (how much of it is C06's business)
+            body = toks[1:] if toks and toks[0][0] == "INDENT" else toks
             if not sc.add_ws or one_line:
                 nf += 1
                 extra = f" (under extra condition {free[0][0]})" if free else ""
